@@ -39,7 +39,7 @@ ASSUMPTIONS = ["R-lfp (see C03)", "strategies are deterministic: re-applying one
 FLOORS = {
     "quick": {"nontrivial": 250, "counters": {"spec.specs_examined": 900, "spec.rules_reapplied": 8000,
                                                "spec.productivity_checked": 700},
-              "seen": {"spec.rule_form": 6}},
+              "seen": {"spec.rule_form": 5}},
     "thorough": {"nontrivial": 6000, "counters": {"spec.specs_examined": 18000, "spec.rules_reapplied": 160000,
                                                    "spec.productivity_checked": 14000},
                  "seen": {"spec.rule_form": 6}},
